@@ -129,6 +129,7 @@ class Explorer:
         self.fp_grew = False
         self.abs_cache = {}       # tree digest -> abs json key
         self.use_ample = True
+        self.list_seen = False    # a claimed-identifier list was accessed outside any lock
         self.shared_tmp = set()   # tmp paths that more than one thread was seen to use
         self.shared = None        # shared visited table (parallel exploration of ONE scenario)
         self.wid, self._tok, self.n_visited = 0, 0, 0
@@ -166,6 +167,11 @@ class Explorer:
         try:
             with sched.patched_primitives():
                 store = self.fhs.FileHashStore(props)
+            # the lists of claimed identifiers become observable: an access made while holding
+            # no lock is a scheduling point (sched.SList)
+            for name, val in list(vars(store).items()):
+                if type(val) is list and "locked" in name:
+                    setattr(store, name, sched.SList(val))
         finally:
             if old is None:
                 os.environ.pop("USE_MULTIPROCESSING", None)
@@ -208,7 +214,14 @@ class Explorer:
                 return {x for x in tok[2] if x[0] in tokens.SHARED} | (
                     {("flock",) + tok[2][0]} if tok[1] == "flock" else set())
             if tok[0] in ("acquire", "wakeup"):
-                return {("lock", tok[1])}
+                # once a list of claimed identifiers was seen to be accessed OUTSIDE any lock,
+                # every critical section conflicts with those accesses
+                return {("lock", tok[1])} | ({("claimlists",)} if self.list_seen else set())
+            if tok[0] == "list":
+                if not self.list_seen:
+                    self.list_seen = True
+                    self.fp_grew = True
+                return {("claimlists",)}
             return set()
 
         tmp_touch = {}
